@@ -18,7 +18,14 @@ def run_check(pid, tier="quick", seed=0, sources=None, quiet=False):
     mod = importlib.import_module("odmlsa.checks.%s" % pid.lower())
     prog = Program(sources=sources)
     rep = Report(pid, tier, seed)
-    mod.run(prog, rep)
+    try:
+        mod.run(prog, rep)
+    except Exception as exc:
+        # an anchor that vanished / a floor that is not met after violations were already established: the violations are the
+        # verdict (exit 1); without any violation the analysis itself is broken (exit 2)
+        if not any(i["status"] == "violation" for i in rep.items):
+            raise
+        rep.note("analysis stopped early after the violations above: %s: %s" % (type(exc).__name__, str(exc)[:200]))
     return prog, rep
 
 
